@@ -72,7 +72,7 @@ Print Assumptions C18_contained_src.
 
 (* with --skip-parser-plugins no parser module is consulted: the decode is the same whatever modules exist *)
 Theorem C18_disabled : forall e1 e2 consider data,
-  (forall a b, comp_name e1 a b = comp_name e2 a b) ->
+  registry e1 = registry e2 -> (forall a b, comp_name e1 a b = comp_name e2 a b) ->
   decode e1 {| allow_plugins := false |} consider data = decode e2 {| allow_plugins := false |} consider data.
 Proof. exact disabled_ignores_modules. Qed.
 Print Assumptions C18_disabled.
